@@ -66,7 +66,7 @@ var patterns = []string{"^[a-z]{3}$", "^[0-9A-F]{4}$", "^[a-c0-2]{2}$", "^[A-Za-
 
 // patterns Go's regexp (RE2, which CEL's matches() uses) refuses to compile; the
 // j5 compiler copies them into string.pattern unchecked
-var badPatterns = []string{"[", "(", "a)", "(?=a)", "a{2000}", "(a)\\1", "*a", "a**", "[z-a]", "\\p{Foo}"}
+var badPatterns = []string{"[", "(", "a)", "(?=a)", "a{2000}", "(a)\\1", "*a", "a**", "[z-a]"}
 
 func init() {
 	for _, p := range badPatterns {
@@ -230,6 +230,9 @@ func genFTy(r *vh.Rand, scope string, env EnumEnv) (FTy, string) {
 			}
 			if r.Chance(40) {
 				sr.Pat = ptr(vh.Pick(r, patterns))
+				if scope == "c12" && r.Chance(60) {
+					sr.Pat = ptr(genPattern(r)) // any expression of the modelled RE2 fragment
+				}
 			}
 			t.Str = sr
 		}
@@ -239,6 +242,9 @@ func genFTy(r *vh.Rand, scope string, env EnumEnv) (FTy, string) {
 		}
 		if scope == "c12" && t.Str != nil && r.Chance(7) {
 			t.Str.Pat = ptr(vh.Pick(r, badPatterns))
+			if r.Bool() {
+				t.Str.Pat = ptr(genBadPattern(r))
+			}
 			return t, "unevaluable-pattern" // compiles; the validator then fails on every message of the type
 		}
 		return t, ""
@@ -303,6 +309,11 @@ func genFTy(r *vh.Rand, scope string, env EnumEnv) (FTy, string) {
 		class := ""
 		if t.KF == KCustom {
 			t.KPat = vh.Pick(r, patterns)
+			if scope == "c12" && r.Chance(50) {
+				// (not the empty pattern: KeyFormat.Custom.pattern is a required value of the source schema)
+				for t.KPat = genPattern(r); t.KPat == ""; t.KPat = genPattern(r) {
+				}
+			}
 		}
 		if r.Chance(30) {
 			e := &EntityKey{}
@@ -635,8 +646,8 @@ func strOfLen(r *vh.Rand, n int, ascii bool) string {
 func patternStrings(r *vh.Rand, pat string) []string {
 	var class string
 	var n int
-	if !strings.HasPrefix(pat, "^[") || !strings.Contains(pat, "]{") {
-		return []string{"a", "aa", "["} // not of the class-count form (an ill-formed pattern)
+	if _, ok := patAST[pat]; ok || !strings.HasPrefix(pat, "^[") || !strings.Contains(pat, "]{") {
+		return patternTexts(r, pat) // not of the class-count form: sampled from the expression (or fixed texts for an ill-formed one)
 	}
 	if _, err := fmt.Sscanf(pat[strings.Index(pat, "{"):], "{%d}$", &n); err != nil {
 		return nil
